@@ -403,3 +403,45 @@ End Match.
 
 (* the Spec: the reported description r (lists in name order) is an exact description of (V, D) *)
 Definition describes (V : view) (D : decor) (r : description) : bool := matches true (v_types V) D (describe V D) r.
+
+(* ---------- rebuilding the schema's structure from a description (used to state the round trip) ---------- *)
+Fixpoint id_of_name (ts : list vtype) (n : name) : option N :=
+  match ts with
+  | [] => None
+  | t :: r => if bytes_eqb (vt_name t) n then Some (vt_id t) else id_of_name r n
+  end.
+
+Fixpoint tref_of (ts : list vtype) (d : dref) : tref :=
+  match d with
+  | DRNamed _ n => match id_of_name ts n with Some i => TNamed i | None => TNil end
+  | DRList x => TList (tref_of ts x)
+  | DRNonNull x => TNonNull (tref_of ts x)
+  end.
+
+Definition ref_id (ts : list vtype) (d : dref) : N := match tref_of ts d with TNamed i => i | _ => 0 end.
+Definition rebuild_args (ts : list vtype) (l : list dinput) : list (name * tref) :=
+  map (fun i => (di_name i, tref_of ts (di_type i))) l.
+Definition rebuild_field (ts : list vtype) (f : dfield) : vfield :=
+  VF (df_name f) (tref_of ts (df_type f)) (rebuild_args ts (df_args f)).
+
+(* the fields / enumValues resolvers with their includeDeprecated argument *)
+Definition fields_resolver (include_deprecated : bool) (l : list dfield) : list dfield :=
+  filter (fun f => include_deprecated || negb (df_isdep f)) l.
+Definition enums_resolver (include_deprecated : bool) (l : list denum) : list denum :=
+  filter (fun e => include_deprecated || negb (de_isdep e)) l.
+
+(* what introspection reports for one type of the map *)
+Definition introspect_type (V : view) (D : decor) (vt : vtype) : dtype :=
+  resolve_type (v_types V) (describe_type V D vt).
+
+(* decorations of a field / enum value *)
+Definition field_dep (D : decor) (i : N) (fn : name) : bytes :=
+  match assocN i (dc_types D) with
+  | Some td => match find_dec fn (td_fields td) with Some fd => fd_dep fd | None => [] end
+  | None => []
+  end.
+Definition value_dep (D : decor) (i : N) (vn : name) : bytes :=
+  match assocN i (dc_types D) with
+  | Some td => match find_dec vn (td_values td) with Some vd => vd_dep vd | None => [] end
+  | None => []
+  end.
